@@ -30,6 +30,12 @@ def get (t : Tbl) (i : Nat) : Option Entry :=
 def modify (t : Tbl) (i : Nat) (f : Entry → Entry) : Tbl :=
   t.map fun p => if p.1 == i && !p.2.gone then (p.1, f p.2) else p
 
+/-- apply `f` to the entry `get i` returns (the first live one under `i`) -/
+def modify1 (t : Tbl) (i : Nat) (f : Entry → Entry) : Tbl :=
+  match t with
+  | [] => []
+  | p :: r => if p.1 == i && !p.2.gone then (p.1, f p.2) :: r else p :: modify1 r i f
+
 /-- `dict[i] = e` (popped entries are forgotten at this point) -/
 def put (t : Tbl) (i : Nat) (e : Entry) : Tbl :=
   (i, e) :: t.filter (fun p => !(p.1 == i) && !p.2.gone)
@@ -52,16 +58,16 @@ def Entry.beat (n : Nat) (e : Entry) : Entry := { e with last := n }
 def Entry.exited (n : Nat) (sent : Bool) (e : Entry) : Entry :=
   if sent then { e with opened := true, last := n } else { e with opened := true }
 
-/-- `relay_cell` forwarded a cell over this route (the budget test is repeated on the entry itself, which is the
-    route `process_cell` looked up) -/
-def Entry.fwd (c : Cfg) (early : Bool) (e : Entry) : Entry :=
-  if Gen.earlyDrop c early e.early then e
-  else { e with early := e.early + 1, fwdEarly := e.fwdEarly + (if early then 1 else 0) }
+/-- `relay_cell` forwarded a cell over this route: `relay_early_count += 1`; the ghost counter counts the flagged ones.
+    (The budget test is NOT repeated here: it is the guard in `Node.onCell`, as in `relay_cell`.) -/
+def Entry.fwd (early : Bool) (e : Entry) : Entry :=
+  { e with early := e.early + 1, fwdEarly := e.fwdEarly + (if early then 1 else 0) }
 
-/-- a delayed removal whose sleep ends at `r ≤ n` pops the entry (an exit socket closes its transports) -/
+/-- a delayed removal whose sleep ends at `r ≤ n` pops the entry; whether the popped exit socket's transports are closed
+    is the generated condition of `remove_exit_socket` (`Gen.closeOnPop`, argument: `enabled` of the popped object) -/
 def Entry.pop (n : Nat) (e : Entry) : Entry :=
   match e.rmAt with
-  | some r => if r ≤ n then { e with gone := true, opened := false } else e
+  | some r => if r ≤ n then { e with gone := true, opened := e.opened && !(Gen.closeOnPop e.opened) } else e
   | none => e
 
 /-- register a removal task whose sleep ends at `t` (only the earliest matters: `pop` is idempotent) -/
@@ -249,7 +255,7 @@ inductive Body
 inductive Ev
   | mkCircuit (id goal peer cands ident : Nat)          -- create_circuit / send_initial_create
   | cell (id : Nat) (early plain ok : Bool) (body : Body) -- a cell reaches process_cell; ok = decrypts and is dispatched
-  | destroy (id peer : Nat)                              -- authenticated destroy from `peer`
+  | destroy (id peer : Nat) (fwd : Bool)                 -- authenticated destroy from `peer`; fwd = (reason ≠ 0)
   | rmCircuit (id : Nat) (destroy : Bool)                -- local remove_circuit(id, destroy=…)
   | rmRelay (id : Nat) (destroy : Bool)
   | rmExit (id : Nat) (destroy removeNow : Bool)
@@ -349,12 +355,12 @@ def Node.dispatch (c : Cfg) (s : Node) (id : Nat) (src : Nat) (body : Body) : No
 def Node.onCell (c : Cfg) (s : Node) (id : Nat) (early plain ok : Bool) (body : Body) : Node :=
   match s.relays.get id with
   | some nr =>
-    let relays := s.relays.modify nr.other (Entry.beat s.now)
+    -- (the heartbeat of the opposite route comes first in the code; the two updates touch different fields)
     if plain || Gen.earlyDrop c early nr.early || !ok then
-      { s with relays := relays, outs := s.outs ++ [Out.drop id] }
+      { s with relays := s.relays.modify nr.other (Entry.beat s.now), outs := s.outs ++ [Out.drop id] }
     else
       { s with
-        relays := relays.modify id (Entry.fwd c early)
+        relays := (s.relays.modify1 id (Entry.fwd early)).modify nr.other (Entry.beat s.now)
         outs := s.outs ++ [Out.fwd id nr.other] }
   | none =>
     let known := (s.circuits.get id).isSome || (s.exits.get id).isSome
@@ -381,7 +387,7 @@ def Node.onDestroyRest (c : Cfg) (s : Node) (id peer : Nat) : Node :=
     | none => s
 
 /-- `on_destroy` (after the signature check; `peer` is the signer) -/
-def Node.onDestroy (c : Cfg) (s : Node) (id peer : Nat) : Node :=
+def Node.onDestroy (c : Cfg) (s : Node) (id peer : Nat) (fwd : Bool) : Node :=
   match s.relays.get id with
   | some nr =>
     match s.relays.get nr.other with
@@ -389,7 +395,7 @@ def Node.onDestroy (c : Cfg) (s : Node) (id peer : Nat) : Node :=
       if pr.peer == peer then
         { s with
           relays := (s.relays.modify id (Entry.remove c s.now false)).modify nr.other (Entry.remove c s.now false)
-          outs := s.outs ++ [Out.destroy nr.peer nr.other] }
+          outs := s.outs ++ (if fwd then [Out.destroy nr.peer nr.other] else []) }
       else s.onDestroyRest c id peer
     | none => s.onDestroyRest c id peer
   | none => s.onDestroyRest c id peer
@@ -402,7 +408,7 @@ def Node.step (c : Cfg) (s : Node) : Ev → Node
           retry := some (newRetry c s.now c.tries0 (cands, ident)) }
       outs := s.outs ++ [Out.cell peer id 2] }
   | .cell id early plain ok body => s.onCell c id early plain ok body
-  | .destroy id peer => s.onDestroy c id peer
+  | .destroy id peer fwd => s.onDestroy c id peer fwd
   | .rmCircuit id destroy =>
     match s.circuits.get id with
     | some e =>
